@@ -499,6 +499,39 @@ def weave(repo: Repo, chk: Check) -> None:
     if not fallback:
         chk.bad("C07.weave-kill", f"{f.key}:branch has_accfg_effects", f.where, "no fallback branch clearing the state for ops with accfg effects")
 
+    # ---- regions woven on their own: what is configured inside is unknown outside
+    chk.rule(
+        "C07.weave-nested",
+        "a branch that weaves an op's regions and discards the resulting state (unknown region ops) removes from the outer state every "
+        "accelerator that is set up inside those regions (or clears it)",
+        floor=1,
+    )
+    n_nested = 0
+    for test, body in _chain(chain_node):
+        for st in body:
+            if not (isinstance(st, ast.Expr) and isinstance(st.value, ast.Call) and isinstance(st.value.func, ast.Name) and st.value.func.id == f.name):
+                continue
+            n_nested += 1
+            shrinks = False
+            for b in body:
+                if clears([b]):
+                    shrinks = True
+                for lp in [n for n in ast.walk(b) if isinstance(n, ast.For)]:
+                    tv = {n.id for n in ast.walk(lp.target) if isinstance(n, ast.Name)}
+                    drops = any(
+                        (isinstance(x, ast.Call) and norm.any_match(["$s.pop($k)", "$s.pop($k, $d)"], x, {"s": state}) is not None and norm.free_names(x.args[0]) & tv)
+                        or (isinstance(x, ast.Delete) and any(isinstance(t, ast.Subscript) and isinstance(t.value, ast.Name) and t.value.id == state and norm.free_names(t.slice) & tv for t in x.targets))
+                        for x in ast.walk(lp))
+                    if drops and norm.contains(lp.iter, T("find_all_acc_names_in_region($r)")):
+                        shrinks = True
+            ttxt = ast.unparse(test) if test is not None else "else"
+            chk.result(shrinks, "C07.weave-nested", f"{f.key}:branch {ttxt}", f"{f.module.relpath}:{st.lineno}",
+                       "accelerators configured inside the separately woven regions are dropped from the outer state",
+                       f"the regions of an op taking the branch `{ttxt}` are woven on their own and the result is discarded, but the outer state is kept: a setup after "
+                       "the op is threaded from the setup before it although a setup inside the regions has changed the registers")
+    if n_nested == 0:
+        chk.ok("C07.weave-nested", f"{f.key}:none", f.where, "no branch discards the state of separately woven regions", nontrivial=False)
+
     # ---- linking of setups
     chk.rule(
         "C07.weave-link",
@@ -512,6 +545,7 @@ def weave(repo: Repo, chk: Check) -> None:
             setup_body = body
     if setup_body is None:
         raise AnalysisError(f"{f.where}: SetupOp branch not found")
+    relink_sites: list = []
     for s in fl.calls("SetupOp"):
         call = s.node
         assert isinstance(call, ast.Call)
@@ -524,17 +558,28 @@ def weave(repo: Repo, chk: Check) -> None:
             depends_on(ex[0], "$x.values", binds={"x": opvar})
             and depends_on(ex[1], "$x.param_names", binds={"x": opvar})
             and depends_on(ex[2], "$x.accelerator", binds={"x": opvar})
-            and norm.match(T("$s[$x.accelerator.data]"), ex[3], {"s": state, "x": opvar}) is not None
+            and norm.any_match(["$s[$x.accelerator.data]", "$s.get($x.accelerator.data)", "$s.get($x.accelerator.data, None)"], ex[3], {"s": state, "x": opvar}) is not None
         )
         chk.result(good, "C07.weave-link", f"{f.key}:relink", s.where(),
                    "re-linked setup keeps values/names/accelerator and takes state[its accelerator] as in_state",
                    f"re-linked setup is built as SetupOp({', '.join(ast.unparse(e)[:40] for e in ex)})")
+        total = bool(has_fact(s, ["$x.in_state != $s.get($x.accelerator.data)", "$x.in_state is not $s.get($x.accelerator.data)",
+                                  "$x.in_state != $s.get($x.accelerator.data, None)"], {"s": state, "x": opvar}))
+        partial = bool(has_fact(s, ["$x.in_state != $s[$x.accelerator.data]", "$x.in_state is not $s[$x.accelerator.data]"], {"s": state, "x": opvar})) \
+            and bool(has_fact(s, ["$x.accelerator.data in $s"], {"s": state, "x": opvar}))
+        relink_sites.append((s, total, partial))
+    handles_unknown = any(t for _, t, _ in relink_sites) or any(
+        bool(has_fact(s, ["$x.accelerator.data not in $s"], {"s": state, "x": opvar})) for s, _, _ in relink_sites)
+    for s, total, partial in relink_sites:
         chk.result(
-            bool(has_fact(s, ["$x.in_state != $s[$x.accelerator.data]", "$x.in_state is not $s[$x.accelerator.data]"], {"s": state, "x": opvar}))
-            and bool(has_fact(s, ["$x.accelerator.data in $s"], {"s": state, "x": opvar})),
+            (total or partial) and handles_unknown,
             "C07.weave-link", f"{f.key}:relink-guard", s.where(),
-            "re-linking happens when the recorded state exists and differs from the setup's in_state",
-            "re-linking guard changed: expected `accel in state and op.in_state != state[accel]`", s.fact_texts)
+            "a setup is re-linked whenever its in_state differs from the recorded state, an unknown recorded state included",
+            "a setup keeps the in_state it already has when the tracer has no state for its accelerator (after an invalidation): a stale pre-threaded "
+            "`from` survives and dedup compares against a state that no longer holds" if (total or partial) else
+            "re-linking guard changed: expected `op.in_state != state.get(accel)`", s.fact_texts)
+    if False:
+        pass
     stores = [st for st in setup_body if isinstance(st, ast.Assign) and any(
         isinstance(t, ast.Subscript) and isinstance(t.value, ast.Name) and t.value.id == state for t in st.targets)]
     good = False
